@@ -1,9 +1,8 @@
 (** C20 — Qremote target choice: MX order, each address once, never itself.
-    Only statements here; proofs live in Proofs/Mx*Proofs.v.  The smtproutes lookup that
-    precedes all this (smtproute()) is not modelled: the MX list and the port are inputs. *)
+    Only statements here; proofs live in Proofs/Mx*Proofs.v. *)
 From Coq Require Import List NArith Bool Sorting.Permutation Sorting.Sorted.
-From Qv Require Import Common.Bytes Gen.GenMx Model.Mx Spec.MxSpec
-  Proofs.MxSortProofs Proofs.MxConnProofs Proofs.MxFilterProofs.
+From Qv Require Import Common.Bytes Gen.GenMx Model.Mx Model.MxRoute Spec.MxSpec Spec.MxRouteSpec
+  Proofs.MxSortProofs Proofs.MxConnProofs Proofs.MxFilterProofs Proofs.MxRouteProofs.
 Import ListNotations.
 
 (** sortmx (with fixes/C20-sortmx-v6first.diff applied): for every non-empty list of MX entries
@@ -78,6 +77,27 @@ Theorem C20_targets : forall ifs l cs0 oracle n,
     /\ Forall (fun a => is_me ifs a = false) (all_attempts outs).
 Proof. exact qremote_targets_correct. Qed.
 Print Assumptions C20_targets.
+
+(** smtproute(), for every configuration (does control/smtproutes.d exist, which files with which
+    content does it hold, content of control/smtproutes, which relay names resolve) and every target
+    name of at most 254 octets: no crash, and the answer is [route_ref] — if the directory exists,
+    the first of  name, "*" + each dot suffix of name (longest first), "default"  that exists as a
+    file decides alone (control/smtproutes and all other files are not consulted); otherwise the
+    first syntactically valid line of control/smtproutes whose pattern is empty or matches decides;
+    otherwise there is no route and the port is 25. *)
+Theorem C20_route_order : forall (cfg : route_cfg) (remhost : bytes),
+  length remhost <= 254 -> smtproute cfg remhost = Ok (route_ref cfg remhost).
+Proof. exact smtproute_order. Qed.
+Print Assumptions C20_route_order.
+
+(** an empty relay means "use DNS": the answer then never carries relay addresses, and a port
+    given next to it (digits, 1..65535) is the port of the answer *)
+Theorem C20_route_empty_relay : forall cfg,
+  (forall port, match parse_route_params cfg None port with Route (Some _) _ => False | _ => True end)
+  /\ (forall p v, strtoul_uint p = (v, []) -> (0 < v < ROUTE_PORT_LIMIT)%N ->
+                  parse_route_params cfg None (Some p) = Route None v).
+Proof. intros cfg. split; [apply no_relay_no_mx|apply no_relay_keeps_port]. Qed.
+Print Assumptions C20_route_empty_relay.
 
 (** the port on which main() filters the local addresses is the SMTP port, which is also the
     default of conn.c and of smtproute(); the marks of tryconn are ordered as the proofs need
